@@ -343,7 +343,20 @@ def execute(case):
 
     run_orders = []          # the order descriptor of every summary in `results`
     for oi, o in enumerate(case["orders"]):
-        S, pos_of, nthreads = one_run(oi, o, 0)
+        try:
+            S, pos_of, nthreads = one_run(oi, o, 0)
+        except HarnessError:
+            raise
+        except Exception as e:
+            # the single-DEX analysis of the same classes succeeded: an exception for a split / order is a difference
+            import traceback
+            tb = traceback.extract_tb(e.__traceback__)
+            where = next((f"{os.path.basename(fr.filename)}:{fr.name}" for fr in reversed(tb) if "androguard" in fr.filename), "?")
+            problems.setdefault(f"C16:exception:{type(e).__name__}:{where}:split",
+                                f"split {case['assignment']} order {o['order']} raised {type(e).__name__}: {e} (in {where}); "
+                                "the single-DEX analysis of the same classes succeeds")
+            log.add(oi, "order-raised", [o["order"], type(e).__name__])
+            continue
         results.append(S)
         run_orders.append(o)
         if nthreads:
@@ -361,7 +374,7 @@ def execute(case):
                     break
     # order differences (between orders of the same split) are their own class
     order_diff = set()
-    for ri, S in enumerate(results[1:], 1):
+    for ri, S in enumerate(results[1:] if results else [], 1):
         # same add order as an earlier run, different seeded thread interleaving -> "schedule"; else -> "order"
         same_order_ref = next((j for j in range(ri) if run_orders[j] is run_orders[ri]), None)
         for ref_i, what in ((same_order_ref, "schedule"), (0, "order")):
